@@ -137,6 +137,11 @@ func c10Build(feats []string) map[string]any {
 		case "uncompilable_pattern":
 			props["name"] = map[string]any{"type": "string", "pattern": "("}
 			hParam["schema"] = map[string]any{"type": "string", "pattern": "(?<x"}
+		case "number_array_param_multipleof":
+			qParam["schema"] = map[string]any{"type": "array", "items": map[string]any{"type": "number", "multipleOf": 0.5}}
+			props["n"] = map[string]any{"type": "number", "multipleOf": 0.5}
+		case "yaml_body":
+			body["content"].(map[string]any)["application/yaml"] = map[string]any{"schema": map[string]any{"$ref": "#/components/schemas/Item"}}
 		case "format_and_bounds":
 			props["id"] = map[string]any{"type": "integer", "format": "int32", "minimum": -2147483648, "maximum": 2147483647}
 			props["name"] = map[string]any{"type": "string", "format": "date-time"}
@@ -170,7 +175,9 @@ func c10Build(feats []string) map[string]any {
 		op["requestBody"] = body
 	}
 	pathItem["post"] = op
-	doc["paths"] = map[string]any{"/items/{id}": pathItem, "/plain": map[string]any{"get": map[string]any{"responses": map[string]any{"200": map[string]any{"description": "ok"}}}}}
+	doc["paths"] = map[string]any{"/items/{id}": pathItem,
+		"/bare/{id}": map[string]any{"summary": "no operations", "parameters": []any{map[string]any{"name": "id", "in": "path", "required": true, "schema": intS()}}},
+		"/plain": map[string]any{"get": map[string]any{"responses": map[string]any{"200": map[string]any{"description": "ok"}}}}}
 	return doc
 }
 
@@ -285,6 +292,19 @@ func c10Request(feats, muts []string) *c10Req {
 			r.path = "/items/0"
 			r.query = []string{"q=0", "q=0", "a=0", "rf=0"}
 			r.body = []byte(`{"id":0,"name":"","tags":[]}`)
+		case "query_nan_inf":
+			r.query = []string{"q=1", "q=NaN", "q=Inf", "q=-Inf", "a=NaN", "rf=nan"}
+		case "body_yaml_nan":
+			r.header.Set("Content-Type", "application/yaml")
+			r.body = []byte("id: .nan\nname: ab\ntags: [x]\nn: .inf\n")
+		case "body_json_nan_token":
+			r.body = []byte(`{"id":NaN,"name":"ab","n":Infinity}`)
+		case "target_bare_path_get":
+			r.method, r.path, r.body = "GET", "/bare/5", nil
+		case "target_bare_path_delete":
+			r.method, r.path, r.body = "DELETE", "/bare/5", nil
+		case "target_bare_path_brew":
+			r.method, r.path, r.body = "BREW", "/bare/5", nil
 		case "query_huge_number":
 			r.query = []string{"q=" + strings.Repeat("9", 400), "q=1e999", "a=-1e999"}
 		case "query_content_repeated":
